@@ -236,13 +236,24 @@ def ev_table(case, ctx):
                                          south_pole=(10.0, -90.0, 4.0), origin=(0.0, 0.0, 4.0)).items():
         r2 = Region(maxdepth=depth)
         r2.add_circles(np.radians(rra), np.radians(rdec), np.radians(rrad))
-        for negate in (False, True):
+        for negate, form in itertools.product((False, True), ("nan", "masked", "masked_via_csv")):
             t = Table()
-            t["ra"] = np.array([np.nan, ra0, np.nan, ra0 + 20])
-            t["dec"] = np.array([dec0, np.nan, np.nan, dec0 + 10])
+            if form == "nan":
+                t["ra"] = np.array([np.nan, ra0, np.nan, ra0 + 20])
+                t["dec"] = np.array([dec0, np.nan, np.nan, dec0 + 10])
+            else:
+                # undefined = MASKED cells (what a blank cell of an ascii catalogue becomes); the value under the mask is 0
+                from astropy.table import MaskedColumn
+                t["ra"] = MaskedColumn(data=[0.0, ra0, 0.0, ra0 + 20], mask=[True, False, True, False])
+                t["dec"] = MaskedColumn(data=[dec0, 0.0, 0.0, dec0 + 10], mask=[False, True, True, False])
             t["tag"] = np.array(["undef_ra", "undef_dec", "undef_both", "defined_outside"], dtype="U16")
+            if form == "masked_via_csv":
+                fcsv = os.path.join(d, "undef.csv")
+                t.write(fcsv, format="ascii.csv", overwrite=True)
+                t = Table.read(fcsv, format="ascii.csv")
+                os.remove(fcsv)
             ctx.count("mask_table_undefined")
-            sig2 = "undefined:%s,negate=%s" % (rname, negate)
+            sig2 = "undefined:%s,negate=%s,%s" % (rname, negate, form)
             ctx.nontrivial(sig2)
             import copy as _copy
             try:
